@@ -66,7 +66,8 @@ CHECKS = {
               "accepted_not_worse per criterion; costs_append: additivity). Tie: shape-exhaustive correspondence of the real "
               "improves_criterion with the model on all small tuples, per-instruction comparison of the tool's accounting with an "
               "independent cost table written in Lean, and every emitted block (3 criteria x split modes x PUSH0) judged by `acceptable` in "
-              "that independent measure."),
+              "that independent measure. The tool's block-level accounting (repeated accesses of a storage slot / an account priced as warm) "
+              "is modelled too (Models/CostAcc.lean: gasAcc, with gasAcc_le_static and gasAcc_eq_static) and compared exactly in C17."),
         design_ref="DESIGN.md section 8, C08",
         technique="Lean 4 theorem about the decision function + exhaustive correspondence on small tuples + independent Lean cost measure over real outputs",
     ),
@@ -106,9 +107,12 @@ CHECKS = {
               "specification's initial stack with no underflow, DUP/SWAP 1..16, every store exactly once, every dependence respected, each "
               "operation applied to the operands the specification names (modulo commutativity), final stack as specified. Every sequence "
               "the real greedy_from_json returns with error == 0 on every explored specification is checked by it (the greedy algorithm "
-              "is not modelled)."),
+              "is not modelled). `realizes` has a kernel-checked semantic meaning: Spec.realizes_exec (for every environment and every state deep "
+              "enough, the EVM instructions the identifiers stand for end in exactly the state the specification denotes under the schedule in "
+              "which the sequence performs the memory/storage operations) and, with C02's theorem, Spec.realized_sequence_obsEq (block and "
+              "sequence are observationally equivalent); their executable premises are evaluated on every greedy sequence (REALEXEC)."),
         design_ref="DESIGN.md section 8, C04",
-        technique="Lean executable specification of 'realizes' applied to every output of the real greedy back end",
+        technique="Lean executable specification of 'realizes', proved sound against the Lean EVM (simulation by induction over the id sequence), applied to every output of the real greedy back end",
     ),
     "C09": dict(
         category="translation_validation",
@@ -162,7 +166,8 @@ CHECKS = {
         text=("Pricing: Cost.costs_flag (kernel-checked, all blocks) says the PUSH0 flag changes the reference cost of a block by exactly one gas "
               "unit and one byte per zero push and nothing else, saving_flag that savings computed with one flag on both sides differ from the other "
               "flag's by the number of zero pushes removed; the tool's gas/bytes/length for every input and output block are compared with this "
-              "reference under the same flag, for both flag values. Emission: real documents and plain blocks are run with PUSH0 disabled and "
+              "reference under the same flag, for both flag values (gas: with the Lean model Cost.gasAcc of the tool's warm/cold accounting, equal "
+              "on every block; gasAcc_le_static / gasAcc_eq_static relate it to the static price). Emission: real documents and plain blocks are run with PUSH0 disabled and "
               "enabled; with it disabled no PUSH0 item may appear that the input did not have. Contract selection: -c <name> on real documents must "
               "give exactly the selected contract's assembly of the full run (Cost.selection_frame / selection_names state the contract on a model "
               "of the filter). The emission and selection clauses are observations of real runs, not theorems about the code."),
@@ -185,7 +190,10 @@ CHECKS = {
               "alike computes the same result after any two histories. Its premise is instantiated on tables that harness/extract.py "
               "regenerates from /repo with ast on every run (module globals of gasol_optimization.py and ir_block.py: read set of the block "
               "pipeline, reset set of init_globals and the smt_translate_block prologue, never-written constants) and kernel-decided "
-              "(generated_frame_ok_*); the residue is an explicit allow-list with reasons. Validation: each block processed in a fresh "
+              "(generated_frame_ok_*); the residue is an explicit allow-list with reasons. The extractor also lists, over the whole "
+              "repository, class-level attributes bound to a mutable container (rebound per instance? mutated in place?) and parameters with a "
+              "mutable default (mutated?); generated_class_state_ok / generated_defaults_ok decide that none of them carries state from one "
+              "object or call to the next. Validation: each block processed in a fresh "
               "process and after 1..50 other blocks, all result fields compared."),
         design_ref="DESIGN.md section 8, C12",
         technique="Lean frame theorem instantiated on read/reset tables extracted from the source on every run (translator) + fresh-process vs history runs",
